@@ -52,7 +52,7 @@ def run(rep):
     readall = vlib.compile_harness("readAll", "asan")
     mk = vlib.compile_harness("mkArchive", "asan")
     arcs = readcore.writer_archives(mk)
-    arcs += readcore.reference_archives(12000 if quick else 300000, limit=16 if quick else 220)
+    arcs += readcore.reference_archives(12000 if quick else 200000, limit=16 if quick else 120)
     rcases, meta = [], []
     dump = (0, 4096, 1)
     for name, arc in arcs:
@@ -63,7 +63,7 @@ def run(rep):
         elif L <= 4096 and (name.startswith("w:") or L <= 1200):
             offs = list(range(L))          # every offset: all writer archives up to 4 KiB, suite files up to 1200 bytes
         else:
-            offs = sorted(set([0, 1, L - 1] + [r.randrange(L) for _ in range(64)]))
+            offs = sorted(set([0, 1, L - 1] + [r.randrange(L) for _ in range(40)]))
         # cuts inside the header fields that a reader fetches with a separate look-ahead: every place where a
         # member name or a link target of the writer's entries is stored in the clear
         if name.startswith("w:"):
@@ -205,7 +205,7 @@ def run(rep):
         distinct_nontrivial=len(set(cases)) + len(set(rcases)),
         rule="core: scripts with failing/zero-returning read callbacks, lying/short/failing skip callbacks and failing seek callbacks through the "
              "real core vs the model; readers: %d archives x truncation offsets (%s) x n-th read callback -> error/0, n-th skip fails/short, "
-             "n-th seek fails; all distinct, non-trivial (a fault or cut is present in every case)" % (len(arcs), "sampled" if quick else "all offsets of writer archives up to 4 KiB and of suite files up to 1200 bytes, 64 sampled beyond"),
+             "n-th seek fails; all distinct, non-trivial (a fault or cut is present in every case)" % (len(arcs), "sampled" if quick else "all offsets of writer archives up to 4 KiB and of suite files up to 1200 bytes, 40 sampled beyond"),
         samples=[cases[0][:300], str(meta[5])],
         traces_validated_against_impl=st["agree"], correspondence=st, prefix_checks=nchk, archives=len(arcs))
     rep.assumptions += ["format level truncation theorems (ustar/cpio models) are not part of this check yet: the prefix property of the format "
